@@ -1,15 +1,22 @@
 //! splitmix64: every random choice of a run derives from one seed.
 
 #[derive(Debug, Clone)]
-pub struct Rng(pub u64);
+pub struct Rng {
+    state: u64,
+    /// the 16-bit values handed out last: now and then one of them is handed out again, so that
+    /// fields which are drawn independently come out *equal* (address = quantity, two requests
+    /// under one transaction id, an echo that happens to match …) far more often than by chance
+    recent: [u16; 4],
+    at: usize,
+}
 
 impl Rng {
     pub fn new(seed: u64) -> Self {
-        Rng(seed ^ 0x9E37_79B9_7F4A_7C15)
+        Rng { state: seed ^ 0x9E37_79B9_7F4A_7C15, recent: [0; 4], at: 0 }
     }
     pub fn next(&mut self) -> u64 {
-        self.0 = self.0.wrapping_add(0x9E37_79B9_7F4A_7C15);
-        let mut z = self.0;
+        self.state = self.state.wrapping_add(0x9E37_79B9_7F4A_7C15);
+        let mut z = self.state;
         z = (z ^ (z >> 30)).wrapping_mul(0xBF58_476D_1CE4_E5B9);
         z = (z ^ (z >> 27)).wrapping_mul(0x94D0_49BB_1331_11EB);
         z ^ (z >> 31)
@@ -56,6 +63,15 @@ impl Rng {
         self.next() as u8
     }
     pub fn u16(&mut self) -> u16 {
+        if self.chance(1, 10) {
+            return self.recent[self.below(4)];
+        }
+        let v = self.fresh_u16();
+        self.recent[self.at % 4] = v;
+        self.at += 1;
+        v
+    }
+    fn fresh_u16(&mut self) -> u16 {
         // favour boundary values
         match self.below(8) {
             0 => *self.pick(&[0u16, 1, 2, 0x7F, 0x80, 0xFF, 0x100, 0x7FFF, 0x8000, 0xFF00, 0xFFFE, 0xFFFF]),
@@ -93,7 +109,7 @@ impl Rng {
         self.bits(n)
     }
     pub fn fork(&mut self) -> Rng {
-        Rng(self.next())
+        Rng { state: self.next(), recent: self.recent, at: self.at }
     }
     /// random composition of `n` into positive parts
     pub fn composition(&mut self, n: usize) -> Vec<usize> {
